@@ -201,6 +201,7 @@ def run(repo: Repo, tier: str, res: CheckResult, seed: int = 0) -> None:
     res.count("TAINT.namespace-registrations", n_reg, 20)
 
     freshness(repo, res)
+    converter_scoping(repo, SK, res)
     validators(repo, res)
     sanitizer(repo, res)
     res.coverage["hole_kind_histogram"] = dict(sorted(kinds_hist.items()))
@@ -265,6 +266,100 @@ def freshness(repo: Repo, res: CheckResult) -> None:
                                         getattr(nd, "lineno", 0)))
     res.evaluated("freshness:fixed-identifiers", True)
     res.count("FRESH.fixed-identifiers", n, 150)
+
+
+def converter_scoping(repo: Repo, SK: StrKind, res: CheckResult) -> None:
+    """Converter templates put user-chosen parameter names and a user-chosen function name into the scope of the
+    generated function.  (a) Identifiers the template fixes INSIDE the function body can be captured by a parameter of
+    the same name, so the body may only use keywords/None besides holes that went through a namespace check against
+    the parameter names; (b) the function name, when it is an unprefixed user name, must be reserved in the namespace
+    (otherwise `def coercer(...)` rebinds the helper the body calls)."""
+    import keyword
+    n = 0
+    for sm in ("conversion/converter_provider", "conversion/broaching/code_generator"):
+        m = repo.mod(sm)
+        for node in ast.walk(m.tree):
+            if not isinstance(node, ast.JoinedStr) or _in_raise_or_repr(m, node):
+                continue
+            parts = [str(v.value) if isinstance(v, ast.Constant) else "\0" for v in node.values]
+            text = "".join(parts)
+            if not re.search(r"\bdef \0", text):
+                continue
+            fn = m.enclosing_function(node)
+            fctx = ctx_for(repo, m, fn) if fn is not None else None
+            n += 1
+            res.evaluated(f"scoping:{m.rel}:{m.qualname(node)}", True)
+            # (a) fixed identifiers after the header line
+            header_end = text.find(":", text.find("def \0"))
+            body = text[header_end + 1:] if header_end >= 0 else ""
+            for mt in re.finditer(r"(\0?)([A-Za-z_][A-Za-z_0-9]*)(\0?)", body):
+                if mt.group(1) or mt.group(3):
+                    continue
+                tok = mt.group(2)
+                if keyword.iskeyword(tok) or tok in ("None", "True", "False"):
+                    continue
+                res.add(Finding("C19", "SCOPE.fixed-identifier-in-body", m.rel, m.qualname(node), tok,
+                                f"the template fixes the identifier `{tok}` inside the body of a function whose parameter "
+                                f"names are chosen by the user: a parameter called `{tok}` shadows it", node.lineno))
+            # holes of the body that name namespace objects must come from a registration that checks the parameters
+            idx_header = None
+            for i, v in enumerate(node.values):
+                if isinstance(v, ast.Constant) and ":" in str(v.value) and idx_header is None and i > 0:
+                    idx_header = i
+            # (b) reservation of the function name
+            def_hole = None
+            for i, v in enumerate(node.values):
+                if isinstance(v, ast.FormattedValue) and i > 0 and isinstance(node.values[i - 1], ast.Constant) \
+                        and str(node.values[i - 1].value).rstrip(" ").endswith("def"):
+                    def_hole = v
+            if def_hole is not None and fn is not None and _unprefixed_user_name(repo, SK, m, fn, def_hole.value, fctx):
+                nm = norm(def_hole.value)
+                reserved = False
+                for c in ast.walk(fn):
+                    if isinstance(c, ast.Call) and "Namespace" in norm(c.func):
+                        occ = next((k.value for k in c.keywords if k.arg == "occupied"), None)
+                        if occ is not None and any(isinstance(x, ast.Name) and x.id == nm for x in ast.walk(occ)):
+                            reserved = True
+                    if isinstance(c, ast.Call) and isinstance(c.func, ast.Attribute) and c.func.attr in (
+                            "register_var", "add_constant", "try_register_var") and c.args and norm(c.args[0]) == nm:
+                        reserved = True
+                if not reserved:
+                    res.add(Finding("C19", "SCOPE.function-name-not-reserved", m.rel, m.qualname(node), f"def {{{nm}}}",
+                                    f"the generated function is named by the user (`{nm}`) but the name is not reserved in "
+                                    "the namespace: a name equal to a helper registered for the body (e.g. `coercer`) "
+                                    "rebinds it and the converter calls itself", node.lineno))
+    res.count("SCOPE.def-templates", n, 2)
+
+
+def _unprefixed_user_name(repo: Repo, SK: StrKind, m, fn: ast.FunctionDef, expr: ast.expr, fctx) -> bool:
+    """the def-name expression is (derived from) a user-chosen name without a fixed prefix"""
+    kinds = SK.classify(expr, fctx, m)
+    if "USER" in kinds:
+        return True
+    if "SANITIZED" not in kinds:
+        return False
+    # find sanitize(...) calls that can produce this name along the parameter's call sites
+    if isinstance(expr, ast.Name):
+        fr = ctx_for(repo, m, fn)
+        seen = 0
+        for call, cctx, shift in SK.R.call_sites(fr):
+            for kw in call.keywords:
+                if kw.arg == expr.id and cctx is not None:
+                    for node in ast.walk(cctx.fn):
+                        if isinstance(node, ast.Call) and isinstance(node.func, ast.Attribute) and node.func.attr == "sanitize" \
+                                and node.args:
+                            a0 = node.args[0]
+                            prefixed = isinstance(a0, ast.JoinedStr) and a0.values and isinstance(a0.values[0], ast.Constant) \
+                                and str(a0.values[0].value) != ""
+                            seen += 1
+                            if not prefixed:
+                                # is this sanitize result the bound argument?
+                                if isinstance(kw.value, ast.Name):
+                                    for asg in ast.walk(cctx.fn):
+                                        if isinstance(asg, ast.Assign) and norm(asg.targets[0]) == kw.value.id \
+                                                and any(x is node for x in ast.walk(asg.value)):
+                                            return True
+    return False
 
 
 def validators(repo: Repo, res: CheckResult) -> None:
